@@ -1601,5 +1601,8 @@ package zygo
 
 // C17: decoding. The record a decoder builds goes through MakeHash, whose member-by-member
 // check may reject it; the decoder does not go on with a record MakeHash rejected.
+//@ func panicOn
+//@ C17 pure
+//@ C17 ensures returns-only-without-an-error: err == nil
 //@ func decodeGoToSexpHelper
 //@ C17 assert rejected-record-is-not-used @before call SetHashKeyOrder[0]: err == nil
